@@ -193,7 +193,8 @@ fn own_violations<'a>(prop: &str, r: &'a WorkerResult) -> Vec<&'a Violation> {
 /// Replay `tape` and report whether a violation (property, invariant) still occurs.
 fn reproduces(base: &WorkerSpec, tape: &[u32], prop: &str, invariant: &str, timeout: Duration, tag: &str) -> Option<WorkerResult> {
     let mut s = base.clone();
-    s.tape = Some(tape.to_vec());
+    // an empty tape means "the worker died before it could report its tape": re-run from the seed
+    s.tape = if tape.is_empty() { None } else { Some(tape.to_vec()) };
     s.out = format!("{}.min{}", base.out, tag);
     let r = run_worker(&s, timeout);
     let hit = match invariant {
@@ -321,10 +322,10 @@ pub fn replay(path: &str) -> i32 {
     };
     let prop = j["property"].as_str().unwrap().to_string();
     let inv = j["invariant"].as_str().unwrap().to_string();
-    let tape: Vec<u32> = serde_json::from_value(j["tape"].clone()).unwrap();
+    let tape: Vec<u32> = serde_json::from_value(j["tape"].clone()).unwrap_or_default();
     let params: BTreeMap<String, Value> = serde_json::from_value(j["params"].clone()).unwrap_or_default();
     let out = scratch_dir(&prop).join(format!("replay_{}.json", std::process::id()));
-    let spec = WorkerSpec { property: prop.clone(), mode: j["mode"].as_str().unwrap().into(), seed: j["seed"].as_u64().unwrap_or(0), run_idx: j["run_idx"].as_u64().unwrap_or(0), program, bin: built.bin.to_string_lossy().into(), src_file: built.src_file.clone(), tape: Some(tape), out: out.to_string_lossy().into(), params };
+    let spec = WorkerSpec { property: prop.clone(), mode: j["mode"].as_str().unwrap().into(), seed: j["seed"].as_u64().unwrap_or(0), run_idx: j["run_idx"].as_u64().unwrap_or(0), program, bin: built.bin.to_string_lossy().into(), src_file: built.src_file.clone(), tape: if tape.is_empty() { None } else { Some(tape) }, out: out.to_string_lossy().into(), params };
     let r = run_worker(&spec, Duration::from_secs(120));
     for l in &r.log {
         println!("{l}");
@@ -465,7 +466,7 @@ pub fn run_check(cfg: CheckCfg, specs: Vec<WorkerSpec>, corpus_info: Value) -> i
                 harness_errors.push(format!("violation {prop}:{inv} of run {} did not reproduce on replay (nondeterminism)", base.run_idx));
             }
             Some(_) => {
-                let (tape, tries) = minimise(&base, tape0.clone(), &prop, inv, timeout, min_budget);
+                let (tape, tries) = if tape0.is_empty() { (tape0.clone(), 0) } else { minimise(&base, tape0.clone(), &prop, inv, timeout, min_budget) };
                 let fin = reproduces(&base, &tape, &prop, inv, timeout, "_f").unwrap_or_else(|| rr.res.clone());
                 let path = write_replay(&cfg, &base, &tape, &prop, inv, &fin, tape0.len(), tries);
                 let d = fin.violations.iter().find(|v| v.property == prop && &v.invariant == inv).map(|v| v.detail.clone()).unwrap_or(fin.detail.clone());
